@@ -77,6 +77,13 @@ def gen_rule(ds):
         free = [i for i in (0, 1, 2) if i not in taken or ds.flag(0.3)]
         if free:
             r['arg_path'] = [(ds.pick(free), ds.pick(ARGPATHS))]
+    if ds.flag(0.08):
+        # argument indices run up to 63: a two-digit one
+        i = ds.pick([10, 11, 12, 20, 63])
+        if ds.flag(0.7):
+            r['arg'] = sorted(r.get('arg', []) + [(i, ds.pick(ARGVALS[:4]))])
+        else:
+            r['arg_path'] = r.get('arg_path', []) + [(i, ds.pick(ARGPATHS))]
     return r
 
 
@@ -92,7 +99,8 @@ def gen_signal(ds, rules, sim):
     dest = tmpl.get('destination')
     nargs = ds.choose(4)
     types, vals = [], []
-    for i in range(3):
+    width = 1 + max([2] + [i for i, _ in tmpl.get('arg', [])] + [i for i, _ in tmpl.get('arg_path', [])])
+    for i in range(width):
         types.append('s')
         vals.append(ds.pick(ARGVALS[:4]))
     for i, v in tmpl.get('arg', []):
